@@ -155,7 +155,7 @@ def generic(mod, pid, args, seed, t0):
     try:
       native = native_call(pid, repo, 'sweep', dict(
           tier=args.tier, seed=seed,
-          failing=[dict(name=o.name, kind=o.kind, detail=o.detail, owner=o.owner) for o in failed]))
+          failing=[dict(name=o.name, kind=o.kind, detail=o.detail, owner=o.owner, site=getattr(o, 'site', None)) for o in failed]))
     except Exception as e:  # pylint: disable=broad-except
       problems.append((3, 'CHECKER-ERROR property=%s native stage: %s' % (pid, e)))
   violations = []
@@ -242,7 +242,7 @@ def generic(mod, pid, args, seed, t0):
           samples=samples,
           known_findings=known_lines,
       ),
-      assumptions=T.assumptions + getattr(mod, 'ASSUMPTIONS', []),
+      assumptions=T.assumptions + getattr(mod, 'ASSUMPTIONS', []) + getattr(mod, 'FRAME_ASSUMPTIONS', []),
       wall_s=round(time.time() - t0, 2),
       violations=len(violations) + (len(failed) if not violations else 0),
   )
